@@ -434,7 +434,16 @@ Qed.
 Lemma nth_repeat_full (n p : nat) : nth p (repeat full_slice n) full_slice = full_slice.
 Proof. revert p; induction n as [|n IH]; intros [|p]; cbn [repeat nth]; try reflexivity. apply IH. Qed.
 
-Lemma member_slice m its sh' : MemberOk m -> no_special its -> length its = length (mal m) ->
+Lemma rp_nodup drops : forall l i, NoDup l -> NoDup (remove_positions i drops l).
+Proof.
+  induction l as [|x t IH]; intros i H; cbn [remove_positions]; [constructor|]. inversion H as [|? ? Hx Ht]; subst.
+  destruct (existsb (Z.eqb i) drops); [apply IH; exact Ht|]. constructor; [|apply IH; exact Ht].
+  intros Hin. destruct (rp_in _ _ _ _ Hin) as (p & Hp & Hnth & _). apply Hx. rewrite <- Hnth. apply nth_In. exact Hp.
+Qed.
+Lemma iotaZ_nodup k : NoDup (iotaZ k).
+Proof. unfold iotaZ. apply nodup_map_inj; [apply seq_NoDup | intros a b _ _ E; lia]. Qed.
+
+Lemma member_slice m its sh' : MemberOk m -> no_special its -> (length its <= length (mal m))%nat ->
   sliced_shape (mshape m) (member_item m its) = Ok sh' ->
   let drops := int_positions 0 its in
   let m' := mkM (mkey m) sh' (renumber_spec (mal m) drops) in
@@ -450,10 +459,17 @@ Proof.
   assert (Hlt : Forall (fun a => (Z.to_nat a < length (repeat full_slice rank))%nat) al).
   { eapply Forall_impl; [|exact Hr]. cbv beta. intros a Ha. rewrite repeat_length. unfold rank, zlen in *. lia. }
   destruct (place_spec full_slice al its (repeat full_slice rank) Hnat Hlt) as (P1 & P2 & P3).
-  fold (member_item m its) in P1, P2, P3. fold items in P1, P2, P3. rewrite repeat_length in P1.
+  change (place al its (repeat full_slice rank)) with items in P1, P2, P3. rewrite repeat_length in P1.
   (* Q: the item at the j-th aligned axis is the j-th item *)
   assert (Q : forall j, (j < length al)%nat -> nth (Z.to_nat (nth j al 0)) items full_slice = nth j its full_slice).
-  { intros j Hj. apply P2; lia. }
+  { intros j Hj. destruct (Nat.lt_ge_cases j (length its)) as [Hji|Hji]; [apply P2; lia|].
+    rewrite P3; [rewrite nth_repeat_full; symmetry; apply nth_overflow; exact Hji|].
+    intros j' Hj' Hj'2 E.
+    assert (Hmn : forall k, (k < length al)%nat -> nth k (map Z.to_nat al) O = Z.to_nat (nth k al 0)).
+    { intros k Hk. rewrite (nth_indep (map Z.to_nat al) O (Z.to_nat 0)) by (rewrite map_length; exact Hk). apply map_nth. }
+    assert (j' = j); [|lia]. apply (proj1 (NoDup_nth (map Z.to_nat al) O) Hnat); try (rewrite map_length; lia). rewrite !Hmn by lia. exact E. }
+  assert (Hint_short : forall j, is_int (nth j its full_slice) = true -> (j < length its)%nat).
+  { intros j Hi. destruct (Nat.lt_ge_cases j (length its)) as [H|H]; [exact H|]. rewrite nth_overflow in Hi by exact H. discriminate. }
   assert (Qo : forall p, ~ In p (map Z.to_nat al) -> nth p items full_slice = full_slice).
   { intros p Hp. rewrite P3; [apply nth_repeat_full|]. intros j Hj _ E. apply Hp. rewrite <- E. apply in_map, nth_In. exact Hj. }
   assert (Hpos : forall p, In p (map Z.to_nat al) -> exists j, (j < length al)%nat /\ p = Z.to_nat (nth j al 0)).
@@ -462,7 +478,8 @@ Proof.
   { unfold no_special. apply Forall_forall. intros x Hx. destruct (In_nth _ _ full_slice Hx) as (p & Hp & Ep).
     destruct (in_dec Nat.eq_dec p (map Z.to_nat al)) as [Hin|Hnin].
     - destruct (Hpos p Hin) as (j & Hj & ->). rewrite Q in Ep by exact Hj. subst x.
-      unfold no_special in Hns. rewrite Forall_forall in Hns. apply Hns. apply nth_In. lia.
+      destruct (Nat.lt_ge_cases j (length its)) as [Hji|Hji]; [|rewrite nth_overflow by exact Hji; split; reflexivity].
+      unfold no_special in Hns. rewrite Forall_forall in Hns. apply Hns. apply nth_In. exact Hji.
     - rewrite Qo in Ep by exact Hnin. subst x. split; reflexivity. }
   destruct (sliced_shape_axis shape items sh' P1 Hns_items Hs) as [S1 S2].
   (* the dropped member axes *)
@@ -474,16 +491,18 @@ Proof.
   assert (Hdv_nd : NoDup dv).
   { unfold dv, dvZ. rewrite map_map. apply nodup_map_inj; [apply ascending_nodup; exact Hasc|].
     intros x y Hx Hy E. apply Hdrops in Hx. apply Hdrops in Hy. destruct Hx as [Hx _]. destruct Hy as [Hy _].
-    unfold znth in E. unfold zlen in *. rewrite Hlen in *.
+    unfold znth in E. unfold zlen in *.
+    assert (Hmn : forall j, (j < length al)%nat -> nth j (map Z.to_nat al) O = Z.to_nat (nth j al 0)).
+    { intros j Hj. rewrite (nth_indep (map Z.to_nat al) O (Z.to_nat 0)) by (rewrite map_length; exact Hj). apply map_nth. }
     assert (Z.to_nat x = Z.to_nat y); [|lia].
     apply (proj1 (NoDup_nth (map Z.to_nat al) O) Hnat); try (rewrite map_length; lia).
-    rewrite !(nth_indep (map Z.to_nat al) O (Z.to_nat 0)) by (rewrite map_length; lia). rewrite !map_nth. exact E. }
+    rewrite !Hmn by lia. exact E. }
   assert (Hints : forall p, (p < length items)%nat -> (is_int (nth p items full_slice) = true <-> In p dv)).
   { intros p Hp. split.
     - intros Hi. destruct (in_dec Nat.eq_dec p (map Z.to_nat al)) as [Hin|Hnin]; [|rewrite Qo in Hi by exact Hnin; discriminate].
       destruct (Hpos p Hin) as (j & Hj & ->). rewrite Q in Hi by exact Hj.
       unfold dv, dvZ. rewrite map_map. apply in_map_iff. exists (Z.of_nat j). split; [unfold znth; rewrite Nat2Z.id; reflexivity|].
-      apply Hdrops. rewrite Nat2Z.id. split; [unfold zlen; lia | exact Hi].
+      apply Hdrops. rewrite Nat2Z.id. split; [pose proof (Hint_short j Hi); unfold zlen; lia | exact Hi].
     - intros Hin. unfold dv, dvZ in Hin. rewrite map_map in Hin. apply in_map_iff in Hin. destruct Hin as (d & Ed & Hd).
       apply Hdrops in Hd. destruct Hd as [Hd Hi]. subst p. unfold znth. rewrite Q by (unfold zlen in Hd; lia). exact Hi. }
   (* new number of a surviving axis x: its rank among the non-integer items *)
@@ -501,26 +520,23 @@ Proof.
   { unfold J. rewrite <- rp_map. rewrite <- list_as_map. reflexivity. }
   assert (HJ : forall j, In j J -> 0 <= j < Z.of_nat (length al) /\ is_int (nth (Z.to_nat j) its full_slice) = false).
   { intros j Hj. apply rp_in_iota in Hj. destruct Hj as [Hr1 Hn]. split; [exact Hr1|].
-    destruct (is_int (nth (Z.to_nat j) its full_slice)) eqn:E; [|reflexivity]. exfalso. apply Hn. apply Hdrops. unfold zlen. split; [lia|exact E]. }
+    destruct (is_int (nth (Z.to_nat j) its full_slice)) eqn:E; [|reflexivity]. exfalso. apply Hn. apply Hdrops.
+    pose proof (Hint_short _ E). unfold zlen. split; [lia|exact E]. }
   assert (Hsurv : forall x, In x (remove_positions 0 drops al) -> exists j, In j J /\ x = znth j al 0 /\ 0 <= x /\ (Z.to_nat x < length items)%nat /\
                     nth (Z.to_nat x) items full_slice = nth (Z.to_nat j) its full_slice).
   { intros x Hx. rewrite HS in Hx. apply in_map_iff in Hx. destruct Hx as (j & <- & Hj). exists j. destruct (HJ j Hj) as [Hjr _].
     assert (Hin : In (znth j al 0) al) by (unfold znth; apply nth_In; lia).
-    rewrite Forall_forall in Hr. specialize (Hr _ Hin). split; [exact Hj|]. split; [reflexivity|]. split; [lia|]. split; [unfold zlen, rank in *; lia|].
+    rewrite Forall_forall in Hr. pose proof (Hr _ Hin) as Hrx. cbv beta in Hrx. destruct Hrx as [Hrx1 Hrx2]. unfold zlen in Hrx2.
+    split; [exact Hj|]. split; [reflexivity|]. split; [exact Hrx1|]. split; [rewrite P1; unfold rank; lia|].
     unfold znth. apply Q. lia. }
   unfold m'. split.
   - (* MemberOk *)
     unfold MemberOk. cbn [mal mshape]. unfold renumber_spec. fold dvZ. fold F. split.
     + apply nodup_map_mono.
       * rewrite HS. apply nodup_map_inj.
-        { unfold J. clear -Hnd. generalize (iotaZ (length al)) as l. generalize 0 as i. intros i l. revert i.
-          assert (G : forall (l : list Z) i, NoDup l -> NoDup (remove_positions i drops l)).
-          { induction l as [|x t IH]; intros i H; cbn [remove_positions]; [constructor|]. inversion H; subst.
-            destruct (existsb (Z.eqb i) drops); [apply IH; assumption|]. constructor; [|apply IH; assumption].
-            intros Hin. destruct (rp_in _ _ _ _ Hin) as (p & Hp & Hnth & _). apply H2. rewrite <- Hnth. apply nth_In. exact Hp. }
-          intros i. apply G. unfold iotaZ. apply FinFun.Injective_map_NoDup; [intros a b; lia | apply seq_NoDup]. }
+        { unfold J. apply rp_nodup, iotaZ_nodup. }
         { intros a b Ha Hb E. destruct (HJ a Ha) as [Har _]. destruct (HJ b Hb) as [Hbr _]. unfold znth in E.
-          assert (Z.to_nat a = Z.to_nat b); [|lia]. apply (proj1 (NoDup_nth al 0) Hnd); try lia. exact E. }
+          assert (Z.to_nat a = Z.to_nat b); [|lia]. apply (proj1 (NoDup_nth al 0) Hnd); lia. }
       * intros x y Hx Hy Hxy. destruct (Hsurv x Hx) as (jx & Hjx & _ & Hx0 & Hxl & Ex). destruct (Hsurv y Hy) as (jy & Hjy & _ & Hy0 & Hyl & Ey).
         rewrite (HF x Hx0 ltac:(lia)), (HF y Hy0 ltac:(lia)).
         apply inj_lt. apply rankn_mono; [lia | lia |]. rewrite Ex. apply (HJ jx Hjx).
@@ -530,15 +546,133 @@ Proof.
   - (* the aligned lengths *)
     unfold aligned_lens. cbn [mal mshape]. unfold renumber_spec. fold dvZ. fold F. rewrite HS. rewrite !map_map. fold J.
     apply map_ext_in. intros j Hj. destruct (HJ j Hj) as [Hjr Hji].
-    assert (Hin : In (znth j al 0) (remove_positions 0 drops al)) by (rewrite HS; apply in_map; exact Hj).
+    assert (Hin : In (znth j al 0) (remove_positions 0 drops al)) by (rewrite HS; apply (in_map (fun j0 => znth j0 al 0)); exact Hj).
     destruct (Hsurv _ Hin) as (j' & _ & _ & Hx0 & Hxl & _).
     set (x := znth j al 0) in *.
     assert (Ex : nth (Z.to_nat x) items full_slice = nth (Z.to_nat j) its full_slice) by (unfold x, znth; apply Q; lia).
     rewrite (HF x Hx0 ltac:(lia)). unfold znth at 1. rewrite Nat2Z.id.
     destruct (S2 (Z.to_nat x) ltac:(unfold rank in *; lia) ltac:(rewrite Ex; exact Hji)) as (l & El & Enth).
-    rewrite Enth. unfold the_len.
+    rewrite Enth. unfold the_len. change (mshape m) with shape. change (mal m) with al.
     replace (znth j (map (fun a => znth a shape 0) al) 0) with (nth (Z.to_nat x) shape 0).
     + rewrite <- Ex, El. reflexivity.
-    + unfold znth. rewrite (nth_indep _ 0 ((fun a => nth (Z.to_nat a) shape 0) 0)) by (rewrite map_length; lia).
-      rewrite (map_nth (fun a => nth (Z.to_nat a) shape 0)). reflexivity.
+    + unfold x, znth. symmetry.
+      rewrite (nth_indep (map (fun a => nth (Z.to_nat a) shape 0) al) 0 ((fun a => nth (Z.to_nat a) shape 0) 0)) by (rewrite map_length; lia).
+      apply (map_nth (fun a => nth (Z.to_nat a) shape 0)).
+Qed.
+
+(* ---- the whole collection under a numeric slice ---- *)
+Lemma Forall2_in_r {A B} (R : A -> B -> Prop) l1 l2 y : Forall2 R l1 l2 -> In y l2 -> exists x, In x l1 /\ R x y.
+Proof.
+  induction 1 as [|a b l1 l2 Hab H IH]; intros Hy; [destruct Hy|].
+  destruct Hy as [<-|Hy]; [exists a; split; [left; reflexivity | exact Hab]|].
+  destruct (IH Hy) as (x & Hx & Hr). exists x. split; [right; exact Hx | exact Hr].
+Qed.
+Lemma Forall2_map_keys {A B} (R : A -> B -> Prop) (f : A -> Z) (g : B -> Z) l1 l2 :
+  Forall2 R l1 l2 -> (forall x y, R x y -> g y = f x) -> map g l2 = map f l1.
+Proof. induction 1 as [|a b l1 l2 Hab H IH]; intros Hk; [reflexivity|]. cbn [map]. rewrite (Hk a b Hab), IH by exact Hk. reflexivity. Qed.
+
+Lemma upd_axes_nil axes : upd_axes axes [] = axes.
+Proof. reflexivity. Qed.
+
+Theorem slice_preserves c its c' : Inv c -> no_special its -> coll_slice c its = Ok c' -> Inv c'.
+Proof.
+  intros HI Hns H. unfold coll_slice in H.
+  destruct (aligned c) eqn:Eal; cbn [negb] in H; [|discriminate].
+  destruct (Nat.ltb (n_aligned c) (length its)) eqn:Elen; [discriminate|]. apply Nat.ltb_ge in Elen.
+  set (F := fun m => match sliced_shape (mshape m) (member_item m its) with
+                     | Ok [] => Err EValue | Ok sh => Ok (mkM (mkey m) sh (mal m)) | Err e => Err e end) in H.
+  destruct (mapr F (members c)) as [ms'|] eqn:Em; [|discriminate].
+  pose proof (mapr_Forall2 _ _ _ Em) as HF2.
+  destruct HI as [Hk HI]. rewrite Eal in HI. destruct HI as [Hok Hlens].
+  set (drops := int_positions 0 its) in *.
+  destruct (int_positions_props its 0) as [Hasc Hdr]. fold drops in Hasc, Hdr.
+  (* every member has as many aligned axes as the first, at least as many as there are items *)
+  assert (Hn : forall m, In m (members c) -> (length its <= length (mal m))%nat).
+  { intros m Hm. unfold n_aligned in Elen. rewrite Eal in Elen. destruct (members c) as [|m0 t] eqn:Ems; [destruct Hm|].
+    assert (E : length (mal m) = length (mal m0)).
+    { pose proof (Hlens m m0 Hm (or_introl eq_refl)) as E. apply (f_equal (@length Z)) in E. unfold aligned_lens in E. rewrite !map_length in E. exact E. }
+    lia. }
+  (* the relation between a member and what becomes of it *)
+  set (R := fun (m n : member) => exists sh, sliced_shape (mshape m) (member_item m its) = Ok sh /\
+                                 n = mkM (mkey m) sh (renumber_spec (mal m) drops)).
+  assert (Hupd : forall m, In m (members c) -> upd_axes (mal m) drops = renumber_spec (mal m) drops).
+  { intros m Hm. destruct (Hok m Hm) as [Hnd Hr]. apply upd_axes_spec; [exact Hasc | | exact Hnd].
+    eapply Forall_impl; [|exact Hdr]. cbv beta. intros d Hd. specialize (Hn m Hm). unfold zlen in *. lia. }
+  destruct (update_aligned_axes drops (members c)) as [als|] eqn:Eu.
+  - (* aligned axes remain *)
+    inversion H; subst c'; clear H.
+    assert (Hals : als = map (fun m => upd_axes (mal m) drops) (members c)).
+    { unfold update_aligned_axes in Eu. destruct drops as [|d ds] eqn:Ed.
+      - inversion Eu. apply map_ext. intros m. symmetry. apply upd_axes_nil.
+      - destruct (members c) as [|m0 t]; [inversion Eu; reflexivity|].
+        destruct (Nat.eqb (length (d :: ds)) (length (mal m0))); [discriminate|]. inversion Eu. reflexivity. }
+    assert (HR : Forall2 R (members c) (map (fun '(m, al) => mkM (mkey m) (mshape m) al) (combine ms' als))).
+    { rewrite Hals.
+      assert (G : forall ms0, (forall m, In m ms0 -> In m (members c)) -> forall ms1, Forall2 (fun x y => F x = Ok y) ms0 ms1 ->
+                  Forall2 R ms0 (map (fun '(m, al) => mkM (mkey m) (mshape m) al) (combine ms1 (map (fun m => upd_axes (mal m) drops) ms0)))).
+      { intros ms0 Hsub ms1 H2. induction H2 as [|m m' l1 l2 Hmm H2 IH]; [constructor|]. cbn [map combine]. constructor.
+        - unfold F in Hmm. destruct (sliced_shape (mshape m) (member_item m its)) as [sh|] eqn:Es; [|discriminate].
+          exists sh. split; [exact Es|]. destruct sh as [|s0 sh0]; [discriminate|]. inversion Hmm; subst m'. cbn [mkey mshape].
+          rewrite (Hupd m (Hsub m (or_introl eq_refl))). reflexivity.
+        - apply IH. intros x Hx. apply Hsub. right. exact Hx. }
+      apply (G (members c)); [tauto | exact HF2]. }
+    unfold Inv. cbn [members aligned]. split; [|split].
+    + rewrite (Forall2_map_keys R mkey mkey _ _ HR); [exact Hk|]. intros x y (sh & _ & ->). reflexivity.
+    + intros n Hin. destruct (Forall2_in_r _ _ _ _ HR Hin) as (m & Hm & sh & Es & ->).
+      apply (member_slice m its sh (Hok m Hm) Hns (Hn m Hm) Es).
+    + intros n n' Hin Hin'. destruct (Forall2_in_r _ _ _ _ HR Hin) as (m & Hm & sh & Es & ->).
+      destruct (Forall2_in_r _ _ _ _ HR Hin') as (m2 & Hm2 & sh2 & Es2 & ->).
+      pose proof (proj2 (member_slice m its sh (Hok m Hm) Hns (Hn m Hm) Es)) as E1. cbv zeta in E1. fold drops in E1. rewrite E1.
+      pose proof (proj2 (member_slice m2 its sh2 (Hok m2 Hm2) Hns (Hn m2 Hm2) Es2)) as E2. cbv zeta in E2. fold drops in E2. rewrite E2.
+      pose proof (Hlens m m2 Hm Hm2) as El. rewrite El.
+      assert (Ell : length (mal m) = length (mal m2)) by (apply (f_equal (@length Z)) in El; unfold aligned_lens in El; rewrite !map_length in El; exact El).
+      rewrite Ell. reflexivity.
+  - (* every aligned axis was dropped: no aligned axes any more *)
+    inversion H; subst c'; clear H. unfold Inv. cbn [members aligned]. split.
+    + rewrite map_map. cbn [mkey]. change (map (fun x : member => mkey x) ms') with (map mkey ms').
+      rewrite (Forall2_map_keys (fun x y => F x = Ok y) mkey mkey _ _ HF2); [exact Hk|].
+      intros x y Hxy. unfold F in Hxy. destruct (sliced_shape (mshape x) (member_item x its)) as [[|s0 sh0]|]; try discriminate. inversion Hxy. reflexivity.
+    + intros n Hin. apply in_map_iff in Hin. destruct Hin as (m & <- & _). reflexivity.
+Qed.
+
+(* ---------- every supported edit, hence every history of edits ---------------------------------------------------- *)
+Inductive edit :=
+| ESlice (its : list item)
+| ESelect (ks : list Z)
+| ERemove (k : Z)                       (* pop / del *)
+| EUpdate (new : list member) (na : bool)
+| ECopy.
+Definition edit_ok (e : edit) : Prop :=
+  match e with
+  | ESlice its => no_special its
+  | ESelect ks => NoDup ks
+  | EUpdate new na => Inv (mkColl new na)     (* the incoming members are themselves a consistent collection *)
+  | _ => True
+  end.
+Definition apply_edit (c : coll) (e : edit) : result coll :=
+  match e with
+  | ESlice its => coll_slice c its
+  | ESelect ks => coll_select c ks
+  | ERemove k => coll_remove c k
+  | EUpdate new na => coll_update c new na
+  | ECopy => Ok c
+  end.
+(* a refused edit leaves the collection as it was *)
+Definition step_edit (c : coll) (e : edit) : coll := match apply_edit c e with Ok c' => c' | Err _ => c end.
+
+Theorem edit_preserves c e : Inv c -> edit_ok e -> Inv (step_edit c e).
+Proof.
+  intros HI He. unfold step_edit. destruct (apply_edit c e) as [c'|] eqn:E; [|exact HI].
+  destruct e as [its|ks|k|new na|]; cbn [apply_edit edit_ok] in *.
+  - apply (slice_preserves c its c' HI He E).
+  - apply (select_preserves c ks c' HI He E).
+  - apply (remove_preserves c k c' HI E).
+  - apply (update_preserves c new na c' HI He E).
+  - inversion E; subst. exact HI.
+Qed.
+
+Theorem history_preserves (es : list edit) : forall c, Inv c -> Forall edit_ok es -> Inv (fold_left step_edit es c).
+Proof.
+  induction es as [|e es IH]; intros c HI Hes; [exact HI|]. inversion Hes; subst. cbn [fold_left].
+  apply IH; [apply edit_preserves; assumption | assumption].
 Qed.
